@@ -49,20 +49,27 @@ theorem xinv_idle {s s' : State} {a : ActorId} {c : Choice} (g : Xinv s)
     · clear x2 x3
       by_cases h0 : (0 : Nat) = a
       · subst h0; (try x_simp); grind
-      · have h0' : ¬ a = 0 := fun h => h0 h.symm
-        (try x_simp); grind
-    · have := x2 b
+      · (try simp only [State.put, State.putS, State.finish, State.write, upd_apply, if_neg h0])
+        first
+        | exact x1
+        | (have h0' : ¬ a = 0 := fun h => h0 h.symm
+           (try x_simp); grind)
+    · have hx2b := x2 b
       clear x2 x3
       by_cases hba : b = a
       · subst hba; (try x_simp); grind
       · (try simp only [State.put, State.putS, State.finish, State.write, upd_apply, if_neg hba])
-        (try x_simp); grind
-    · have := x3 b hb
+        first
+        | exact hx2b
+        | ((try x_simp); grind)
+    · have hx3b := x3 b hb
       clear x2 x3
       by_cases hba : b = a
       · subst hba; (try x_simp); grind
       · (try simp only [State.put, State.putS, State.finish, State.write, upd_apply, if_neg hba])
-        (try x_simp); grind)
+        first
+        | exact hx3b
+        | ((try x_simp); grind))
 
 set_option maxHeartbeats 1000000 in
 theorem xinv_begin {s s' : State} {a : ActorId} {c : Choice} (g : Xinv s)
@@ -79,20 +86,27 @@ theorem xinv_begin {s s' : State} {a : ActorId} {c : Choice} (g : Xinv s)
     · clear x2 x3
       by_cases h0 : (0 : Nat) = a
       · subst h0; (try x_simp); grind
-      · have h0' : ¬ a = 0 := fun h => h0 h.symm
-        (try x_simp); grind
-    · have := x2 b
+      · (try simp only [State.put, State.putS, State.finish, State.write, upd_apply, if_neg h0])
+        first
+        | exact x1
+        | (have h0' : ¬ a = 0 := fun h => h0 h.symm
+           (try x_simp); grind)
+    · have hx2b := x2 b
       clear x2 x3
       by_cases hba : b = a
       · subst hba; (try x_simp); grind
       · (try simp only [State.put, State.putS, State.finish, State.write, upd_apply, if_neg hba])
-        (try x_simp); grind
-    · have := x3 b hb
+        first
+        | exact hx2b
+        | ((try x_simp); grind)
+    · have hx3b := x3 b hb
       clear x2 x3
       by_cases hba : b = a
       · subst hba; (try x_simp); grind
       · (try simp only [State.put, State.putS, State.finish, State.write, upd_apply, if_neg hba])
-        (try x_simp); grind)
+        first
+        | exact hx3b
+        | ((try x_simp); grind))
 
 set_option maxHeartbeats 1000000 in
 theorem xinv_commit {s s' : State} {a : ActorId} {c : Choice} (g : Xinv s)
@@ -109,20 +123,27 @@ theorem xinv_commit {s s' : State} {a : ActorId} {c : Choice} (g : Xinv s)
     · clear x2 x3
       by_cases h0 : (0 : Nat) = a
       · subst h0; (try x_simp); grind
-      · have h0' : ¬ a = 0 := fun h => h0 h.symm
-        (try x_simp); grind
-    · have := x2 b
+      · (try simp only [State.put, State.putS, State.finish, State.write, upd_apply, if_neg h0])
+        first
+        | exact x1
+        | (have h0' : ¬ a = 0 := fun h => h0 h.symm
+           (try x_simp); grind)
+    · have hx2b := x2 b
       clear x2 x3
       by_cases hba : b = a
       · subst hba; (try x_simp); grind
       · (try simp only [State.put, State.putS, State.finish, State.write, upd_apply, if_neg hba])
-        (try x_simp); grind
-    · have := x3 b hb
+        first
+        | exact hx2b
+        | ((try x_simp); grind)
+    · have hx3b := x3 b hb
       clear x2 x3
       by_cases hba : b = a
       · subst hba; (try x_simp); grind
       · (try simp only [State.put, State.putS, State.finish, State.write, upd_apply, if_neg hba])
-        (try x_simp); grind)
+        first
+        | exact hx3b
+        | ((try x_simp); grind))
 
 set_option maxHeartbeats 1000000 in
 theorem xinv_abort {s s' : State} {a : ActorId} {c : Choice} (g : Xinv s)
@@ -139,20 +160,27 @@ theorem xinv_abort {s s' : State} {a : ActorId} {c : Choice} (g : Xinv s)
     · clear x2 x3
       by_cases h0 : (0 : Nat) = a
       · subst h0; (try x_simp); grind
-      · have h0' : ¬ a = 0 := fun h => h0 h.symm
-        (try x_simp); grind
-    · have := x2 b
+      · (try simp only [State.put, State.putS, State.finish, State.write, upd_apply, if_neg h0])
+        first
+        | exact x1
+        | (have h0' : ¬ a = 0 := fun h => h0 h.symm
+           (try x_simp); grind)
+    · have hx2b := x2 b
       clear x2 x3
       by_cases hba : b = a
       · subst hba; (try x_simp); grind
       · (try simp only [State.put, State.putS, State.finish, State.write, upd_apply, if_neg hba])
-        (try x_simp); grind
-    · have := x3 b hb
+        first
+        | exact hx2b
+        | ((try x_simp); grind)
+    · have hx3b := x3 b hb
       clear x2 x3
       by_cases hba : b = a
       · subst hba; (try x_simp); grind
       · (try simp only [State.put, State.putS, State.finish, State.write, upd_apply, if_neg hba])
-        (try x_simp); grind)
+        first
+        | exact hx3b
+        | ((try x_simp); grind))
 
 set_option maxHeartbeats 1000000 in
 theorem xinv_after {s s' : State} {a : ActorId} {c : Choice} (g : Xinv s)
@@ -169,20 +197,27 @@ theorem xinv_after {s s' : State} {a : ActorId} {c : Choice} (g : Xinv s)
     · clear x2 x3
       by_cases h0 : (0 : Nat) = a
       · subst h0; (try x_simp); grind
-      · have h0' : ¬ a = 0 := fun h => h0 h.symm
-        (try x_simp); grind
-    · have := x2 b
+      · (try simp only [State.put, State.putS, State.finish, State.write, upd_apply, if_neg h0])
+        first
+        | exact x1
+        | (have h0' : ¬ a = 0 := fun h => h0 h.symm
+           (try x_simp); grind)
+    · have hx2b := x2 b
       clear x2 x3
       by_cases hba : b = a
       · subst hba; (try x_simp); grind
       · (try simp only [State.put, State.putS, State.finish, State.write, upd_apply, if_neg hba])
-        (try x_simp); grind
-    · have := x3 b hb
+        first
+        | exact hx2b
+        | ((try x_simp); grind)
+    · have hx3b := x3 b hb
       clear x2 x3
       by_cases hba : b = a
       · subst hba; (try x_simp); grind
       · (try simp only [State.put, State.putS, State.finish, State.write, upd_apply, if_neg hba])
-        (try x_simp); grind)
+        first
+        | exact hx3b
+        | ((try x_simp); grind))
 
 set_option maxHeartbeats 1000000 in
 theorem xinv_use {s s' : State} {a : ActorId} {c : Choice} (g : Xinv s)
@@ -199,20 +234,27 @@ theorem xinv_use {s s' : State} {a : ActorId} {c : Choice} (g : Xinv s)
     · clear x2 x3
       by_cases h0 : (0 : Nat) = a
       · subst h0; (try x_simp); grind
-      · have h0' : ¬ a = 0 := fun h => h0 h.symm
-        (try x_simp); grind
-    · have := x2 b
+      · (try simp only [State.put, State.putS, State.finish, State.write, upd_apply, if_neg h0])
+        first
+        | exact x1
+        | (have h0' : ¬ a = 0 := fun h => h0 h.symm
+           (try x_simp); grind)
+    · have hx2b := x2 b
       clear x2 x3
       by_cases hba : b = a
       · subst hba; (try x_simp); grind
       · (try simp only [State.put, State.putS, State.finish, State.write, upd_apply, if_neg hba])
-        (try x_simp); grind
-    · have := x3 b hb
+        first
+        | exact hx2b
+        | ((try x_simp); grind)
+    · have hx3b := x3 b hb
       clear x2 x3
       by_cases hba : b = a
       · subst hba; (try x_simp); grind
       · (try simp only [State.put, State.putS, State.finish, State.write, upd_apply, if_neg hba])
-        (try x_simp); grind)
+        first
+        | exact hx3b
+        | ((try x_simp); grind))
 
 set_option maxHeartbeats 1000000 in
 theorem xinv_sess {s s' : State} {a : ActorId} {c : Choice} (g : Xinv s)
@@ -229,20 +271,27 @@ theorem xinv_sess {s s' : State} {a : ActorId} {c : Choice} (g : Xinv s)
     · clear x2 x3
       by_cases h0 : (0 : Nat) = a
       · subst h0; (try x_simp); grind
-      · have h0' : ¬ a = 0 := fun h => h0 h.symm
-        (try x_simp); grind
-    · have := x2 b
+      · (try simp only [State.put, State.putS, State.finish, State.write, upd_apply, if_neg h0])
+        first
+        | exact x1
+        | (have h0' : ¬ a = 0 := fun h => h0 h.symm
+           (try x_simp); grind)
+    · have hx2b := x2 b
       clear x2 x3
       by_cases hba : b = a
       · subst hba; (try x_simp); grind
       · (try simp only [State.put, State.putS, State.finish, State.write, upd_apply, if_neg hba])
-        (try x_simp); grind
-    · have := x3 b hb
+        first
+        | exact hx2b
+        | ((try x_simp); grind)
+    · have hx3b := x3 b hb
       clear x2 x3
       by_cases hba : b = a
       · subst hba; (try x_simp); grind
       · (try simp only [State.put, State.putS, State.finish, State.write, upd_apply, if_neg hba])
-        (try x_simp); grind)
+        first
+        | exact hx3b
+        | ((try x_simp); grind))
 
 set_option maxHeartbeats 1000000 in
 theorem xinv_close {s s' : State} {a : ActorId} {c : Choice} (g : Xinv s)
@@ -259,20 +308,27 @@ theorem xinv_close {s s' : State} {a : ActorId} {c : Choice} (g : Xinv s)
     · clear x2 x3
       by_cases h0 : (0 : Nat) = a
       · subst h0; (try x_simp); grind
-      · have h0' : ¬ a = 0 := fun h => h0 h.symm
-        (try x_simp); grind
-    · have := x2 b
+      · (try simp only [State.put, State.putS, State.finish, State.write, upd_apply, if_neg h0])
+        first
+        | exact x1
+        | (have h0' : ¬ a = 0 := fun h => h0 h.symm
+           (try x_simp); grind)
+    · have hx2b := x2 b
       clear x2 x3
       by_cases hba : b = a
       · subst hba; (try x_simp); grind
       · (try simp only [State.put, State.putS, State.finish, State.write, upd_apply, if_neg hba])
-        (try x_simp); grind
-    · have := x3 b hb
+        first
+        | exact hx2b
+        | ((try x_simp); grind)
+    · have hx3b := x3 b hb
       clear x2 x3
       by_cases hba : b = a
       · subst hba; (try x_simp); grind
       · (try simp only [State.put, State.putS, State.finish, State.write, upd_apply, if_neg hba])
-        (try x_simp); grind)
+        first
+        | exact hx3b
+        | ((try x_simp); grind))
 
 set_option maxHeartbeats 1000000 in
 theorem xinv_exp {s s' : State} {a : ActorId} {c : Choice} (g : Xinv s)
@@ -289,20 +345,27 @@ theorem xinv_exp {s s' : State} {a : ActorId} {c : Choice} (g : Xinv s)
     · clear x2 x3
       by_cases h0 : (0 : Nat) = a
       · subst h0; (try x_simp); grind
-      · have h0' : ¬ a = 0 := fun h => h0 h.symm
-        (try x_simp); grind
-    · have := x2 b
+      · (try simp only [State.put, State.putS, State.finish, State.write, upd_apply, if_neg h0])
+        first
+        | exact x1
+        | (have h0' : ¬ a = 0 := fun h => h0 h.symm
+           (try x_simp); grind)
+    · have hx2b := x2 b
       clear x2 x3
       by_cases hba : b = a
       · subst hba; (try x_simp); grind
       · (try simp only [State.put, State.putS, State.finish, State.write, upd_apply, if_neg hba])
-        (try x_simp); grind
-    · have := x3 b hb
+        first
+        | exact hx2b
+        | ((try x_simp); grind)
+    · have hx3b := x3 b hb
       clear x2 x3
       by_cases hba : b = a
       · subst hba; (try x_simp); grind
       · (try simp only [State.put, State.putS, State.finish, State.write, upd_apply, if_neg hba])
-        (try x_simp); grind)
+        first
+        | exact hx3b
+        | ((try x_simp); grind))
 
 theorem xinv_step {s s' : State} {a : ActorId} {c : Choice} (g : Xinv s)
     (hs : step s a c = some s') : Xinv s' := by
